@@ -145,18 +145,17 @@ Theorem fixed_piece_consumed :
     (forall id l t, In (id, l) (lits_of T) -> assocN id st = Some t -> id = lid /\ l = lit) ->
     In (lid, lit) (lits_of T) -> assocN lid st = Some to ->
     String.prefix lit (sdrop ci word) = true ->
-    (String.length lit < String.length (sdrop ci word))%nat ->
+    (ci < String.length word)%nat ->
     sw_loop (S fuel) Fixed complete tabs e T word s ci log
     = sw_loop fuel Fixed complete tabs e T word to (ci + String.length lit) log.
 Proof.
   intros fuel complete tabs e T word s st ci lid lit to log Hpl Hpw Hst Hu Hin Ha Hp Hl.
   rewrite sw_loop_S.
-  assert (Nat.leb (String.length word) ci = false) as ->.
-  { apply Nat.leb_gt. rewrite sdrop_length in Hl. lia. }
+  assert (Nat.leb (String.length word) ci = false) as -> by (apply Nat.leb_gt; lia).
   cbv zeta. rewrite Hst. unfold lit_loop. fold (lits_of T).
   assert (lit_loop_fixed complete (lits_of T) st (sdrop ci word)
           = Ok (SCont to (String.length lit))) as E.
   { rewrite (lit_loop_fixed_plain complete st _ (lits_of T) Hpl (plain_sdrop ci word Hpw)).
-    now rewrite (fixed_consumes_piece complete st _ (lits_of T) lid lit to Hu Hin Ha Hp Hl). }
+    now rewrite (fixed_consumes_piece complete st _ (lits_of T) lid lit to Hu Hin Ha Hp). }
   destruct complete; rewrite E; reflexivity.
 Qed.
